@@ -1,5 +1,6 @@
 import Ecal.Lemmas.EvalHeap
 import Ecal.Lemmas.ContainerPaths
+import Ecal.Lemmas.EvalFrame
 /-!
 # C05 — lexical scoping, functions, containers and objects
 
@@ -9,7 +10,7 @@ Theorems about the functions of `Model/Eval.lean` (scope chain: `scopeFor`, `loo
 `runM m st` = result and final state of a computation.  `St.chain st f sc` is the scope `sc` followed by
 its ancestors, `St.nearest st sc v` the first scope on that chain that defines `v`.
 
-Proved here: lookup_nearest, assign_nearest_or_local, let_local, inner_not_visible_outside,
+Proved here: call_does_not_write_enclosing_frames, lookup_nearest, assign_nearest_or_local, let_local, inner_not_visible_outside,
 call_fresh_locals_partial (frame = fresh index), closure_sees_definition_scope_partial (chain of a frame),
 args_missing_default_extra_ignored, prims_by_value_containers_by_ref (aliasing through the heap cell),
 read_after_write (one map cell, number and string keys) and read_after_write_paths (any nesting, acyclic
@@ -112,6 +113,28 @@ theorem call_fresh_locals_partial (name : String) (st : St) :
 theorem closure_sees_definition_scope_partial (st : St) (fr ds f : Nat) (h : (st.scope fr).parent = some ds) :
     st.chain (f + 1) fr = fr :: st.chain f ds := by
   simp [St.chain, h]
+
+/-- A call changes no existing scope while it builds its frame: `this`, `super` and the parameters are written
+    into the fresh, still parentless root scope, so they SHADOW and never overwrite variables of the same
+    names in the enclosing frames (the declaration scope is linked only afterwards).  Holds for every
+    outcome, also when a default raises an error; hypothesis `hev`: evaluating a default expression itself
+    leaves scope `t` and the unreachable new frame alone (what the defaults and later the body assign is
+    covered by `assign_nearest_or_local`). -/
+theorem call_does_not_write_enclosing_frames (ev : Ecal.Parse.Node → M Val) (name : String) (ds : Nat)
+    (this super : Option Val) (params : List Param) (args : List Val) (st st' : St) (r : Except Sig Nat) (t : Nat)
+    (ht : t < st.scopes.size) (hpl : ∀ p ∈ params, PlainName p.name)
+    (hev : DefaultKeeps ev st.scopes.size t)
+    (h : runM (callFrame ev name ds this super params args) st = (r, st')) :
+    st'.scope t = st.scope t :=
+  callFrame_keeps_existing ev name ds this super params args st st' r t ht hpl hev h
+
+/-- non-vacuity: a method frame (`this` bound, parameter `a`) built over the example state; constant defaults -/
+example (st' : St) (r : Except Sig Nat)
+    (h : runM (callFrame (fun _ => pure Val.null) "m" 1 (some (.map 0)) none [⟨[97], none⟩] [.bool true]) exSt = (r, st')) :
+    st'.scope 0 = exSt.scope 0 :=
+  call_does_not_write_enclosing_frames _ "m" 1 _ _ _ _ exSt st' r 0 (by decide)
+    (by intro p hp; simp at hp; subst hp; unfold PlainName; decide)
+    (by intro d s r s1 hr; simp only [runM_pure] at hr; injection hr with _ h2; subst h2; exact ⟨Nat.le_refl _, rfl, rfl⟩) h
 
 /-- Positional parameters: the argument at the parameter's position if there is one, else the default
     (evaluated by `evalDefault`, which the evaluator instantiates with evaluation in the caller's scope), else
